@@ -19,7 +19,7 @@ from ..common import Finding, Report
 
 NEEDS_LOOP = ("buffer", "delay", "rate_limit", "timed_window", "timed_window_unique", "partition", "latest", "map_async",
               "dask_scatter", "dask_map", "partition_t")
-PLAIN = ("map", "sink", "filter", "sliding_window", "unique", "sink_to_list")
+PLAIN = ("map", "sink", "partition_unique", "pluck", "collect", "flatten", "slice", "accumulate", "filter", "sliding_window", "unique", "sink_to_list")
 JOINS = ("union", "zip", "combine_latest", "zip_latest")
 
 
@@ -81,6 +81,15 @@ class Seams:
             Thread = FakeThread
             local = self.saved[1].local
             Event = self.saved[1].Event
+        self.sync_calls = []
+
+        def fake_sync(loop, func, *args, **kwargs):
+            # a blocking emit ends here (it would wait for the inert loop for ever): record where it wanted to run
+            seams.sync_calls.append(loop)
+            kwargs.pop("callback_timeout", None)
+            return None
+        self.saved_sync = sc.sync
+        sc.sync = fake_sync
         sc.IOLoop = FakeIOLoop
         sc.threading = FakeThreading
         sc._io_loops[:] = []
@@ -89,6 +98,7 @@ class Seams:
 
     def __exit__(self, *a):
         sc = self.sc
+        sc.sync = self.saved_sync
         sc.IOLoop, sc.threading, loops, sc._dask_default_client = self.saved
         sc._io_loops[:] = loops
         from streamz.sinks import _global_sinks
@@ -235,6 +245,18 @@ def make_node(kind, ups, seams, A, L):
         return sc.latest(u, **kw)
     if kind == "partition_t":
         return sc.partition(u, 2, timeout=1, **kw)
+    if kind == "partition_unique":
+        return sc.partition_unique(u, 2, **kw)
+    if kind == "pluck":
+        return sc.pluck(u, 0, **kw)
+    if kind == "collect":
+        return sc.collect(u, **kw)
+    if kind == "accumulate":
+        return sc.accumulate(u, lambda s, x: x, start=0)
+    if kind == "flatten":
+        return sc.flatten(u, **kw)
+    if kind == "slice":
+        return sc.slice(u, 0)      # (slice keeps only stream_name of its keyword arguments: nothing to conflict with)
     if kind == "map_async":
         async def f(x):
             return x
@@ -266,7 +288,7 @@ def _with_kw(cls, args, kw):
     return cls(*args)
 
 
-ACCEPTS_KW = ("partition_t", "sink", "dask_scatter", "sliding_window", "unique", "buffer", "delay", "rate_limit", "timed_window", "timed_window_unique",
+ACCEPTS_KW = ("partition_unique", "pluck", "collect", "flatten", "partition_t", "sink", "dask_scatter", "sliding_window", "unique", "buffer", "delay", "rate_limit", "timed_window", "timed_window_unique",
               "partition", "latest", "union", "zip", "combine_latest", "zip_latest")
 
 
@@ -338,6 +360,19 @@ def run_config(cfg):
                 # use the pipeline once (asynchronous pipelines only: a blocking emit would wait for the inert loop):
                 # start the source / push one element; whatever gets scheduled now belongs on the component's loop too
                 if comp.mode is not True:
+                    # a blocking pipeline: emit at the newest node (created with asynchronous=None, which emit treats like
+                    # False) must go through sync() on the component's loop, not run inline
+                    if comp.loop is None or first != "Stream":
+                        continue
+                    n0 = len(seams.sync_calls)
+                    try:
+                        r = nodes[-1].emit(1)
+                    except Exception as e:   # noqa
+                        return ("exception", first, "run", dict(cfg=cfg, error=repr(e)[:200]))
+                    got = [("current" if l is seams.current else "other" if l is seams.other else "dask" if l is seams.dask else
+                            "background" if l in seams.created else repr(l)) for l in seams.sync_calls[n0:]]
+                    if got != [comp.loop]:
+                        return ("mode", steps[-2][1] if len(steps) > 1 else first, "blocking-emit-not-through-sync", dict(cfg=cfg, sync_on=got, want=[comp.loop]))
                     continue
                 try:
                     if first != "Stream":
@@ -475,7 +510,7 @@ def compare(nodes, comp, seams, bg, cfg, site):
 def configs(thorough):
     AS = (None, True, False)
     LS = (None, "current", "other")
-    kinds = PLAIN[:2] + NEEDS_LOOP if not thorough else PLAIN + NEEDS_LOOP
+    kinds = PLAIN[:7] + NEEDS_LOOP if not thorough else PLAIN + NEEDS_LOOP
     args = [(None, None), (True, None), (False, None), (None, "current"), (None, "other")]
     if thorough:
         args += [(True, "current"), (False, "other")]
@@ -498,6 +533,11 @@ def configs(thorough):
                             for k2 in ("buffer", "map", "timed_window"):
                                 yield (first, A, L, (("sibling",), ("node", k, a, l), ("extend-sibling", k2)))
                                 yield (first, A, L, (("sibling",), ("node", "map", None, None), ("node", k, a, l), ("extend-sibling", k2)))
+                if first == "Stream" and A is not True:
+                    # blocking pipelines: emit at a child node
+                    for k in ("map", "buffer", "partition_unique", "latest"):
+                        yield (first, A, L, (("node", k, None, None), ("run",)))
+                        yield (first, A, L, (("node", "map", None, None), ("node", k, None, None), ("run",)))
                 if first in ("Stream", "from_periodic", "from_iterable", "from_textfile", "filenames") and A is True:
                     yield (first, A, L, (("run",),))
                     for k in ("map", "partition_t", "latest", "buffer", "map_async", "timed_window", "rate_limit", "delay"):
